@@ -17,15 +17,20 @@ Independent of the state machine of `consume_name`:
 
 namespace Dmn.Lexer
 
+/-- `ch` followed by `s` opens a comment (`//` or `/*`). -/
+def commentHead (ch : Nat) (s : List Nat) : Bool :=
+  ch == 47 && (s.head? == some 47 || s.head? == some 42)
+
 /-- Words and additional symbols of the text, each with the offset just after it.
-`off` is the offset of the head of the list, `cur` the word being read. -/
+`off` is the offset of the head of the list, `cur` the word being read.  The name ends where a
+comment opens (a comment separates tokens; its `/` is not a part of the name). -/
 def splitGo : Nat → List Nat → List Nat → List (List Nat × Nat)
   | off, cur, [] => if cur.isEmpty then [] else [(cur, off)]
   | off, cur, ch :: s =>
     if isNamePartChar ch then splitGo (off + 1) (cur ++ [ch]) s
     else
       let emit := if cur.isEmpty then [] else [(cur, off)]
-      if isAdditionalNameSymbol ch then emit ++ ([ch], off + 1) :: splitGo (off + 1) [] s
+      if isAdditionalNameSymbol ch && !commentHead ch s then emit ++ ([ch], off + 1) :: splitGo (off + 1) [] s
       else if isWhitespace ch then emit ++ splitGo (off + 1) [] s
       else emit
 
